@@ -55,6 +55,7 @@ WVal ==
     preColonB    |-> [pad |-> "pre",  colon |-> TRUE,  abs |-> TRUE,  text |-> "B.tzif"],       \* " :/dir/B.tzif"
     blank        |-> [pad |-> "pre",  colon |-> FALSE, abs |-> FALSE, text |-> ""] ]            \* " ": not empty, names nothing
 
+\* (the orchestrator writes zone B's file with 9000 earlier no-op transitions, i.e. larger than 64 KiB: a file of any size is that file)
 WGarbage == "GARBAGE"
 WAbsFiles == [ x \in {"A.tzif", "B.tzif", "F.tzif", "G.tzif"} |->
                  CASE x = "A.tzif" -> "A" [] x = "B.tzif" -> "B" [] x = "F.tzif" -> "F" [] OTHER -> WGarbage ]
